@@ -649,7 +649,7 @@ def c17_edit_case(rng, res, batch, tag):
     top = objs[0]
     hist = []
     for _ in range(rng.randint(2, 5)):
-        op = rng.choice(["add", "remove", "bypass", "query"])
+        op = rng.choice(["add", "remove", "bypass", "query", "readd", "newjob"])
         members = [j.jid for j in top.jobs]
         if len(members) < 2:
             break
@@ -668,6 +668,25 @@ def c17_edit_case(rng, res, batch, tag):
             x = rng.choice(members)
             top.bypass_and_remove(objs[x])
             hist.append(["bypass", x])
+        elif op == "readd":
+            # a member taken out and put back (its edges are untouched)
+            x = rng.choice(members)
+            top.remove(objs[x])
+            if rng.random() < 0.5:
+                list(top.successors_downstream(*[objs[m] for m in members if m != x][:1]))
+            top.add(objs[x])
+            hist.append(["readd", x])
+        elif op == "newjob":
+            # a brand new job joins, required by / requiring some members
+            j = SJob(len(objs), 40 + len(objs))
+            objs.append(j)
+            for m in rng.sample(members, min(len(members), rng.randint(0, 2))):
+                if rng.random() < 0.5:
+                    j.requires(objs[m])
+                else:
+                    objs[m].requires(j)
+            top.add(j)
+            hist.append(["newjob", j.jid, sorted(r.jid for r in j.required)])
         members = [j.jid for j in top.jobs]
         E = {(x, r.jid) for x in members for r in objs[x].required if r.jid in members}
         R = reach(members, E)
@@ -718,6 +737,14 @@ def run_C17(tier, seed, res, drv, replay=None):
         sp = flat_spec(n, edges, rng.sample(range(n), n), forever=[f for f in range(n) if rng.random() < 0.2])
         if i % 3 == 0:
             sp = nestify(sp, rng)       # nodes of the graph that are nested schedulers, empty ones included
+        if i % 4 == 1:
+            # not closed: some members require jobs that are not (or no longer) members
+            for _ in range(rng.randint(1, 2)):
+                out = sp["n"]
+                sp["n"] += 1
+                sp.setdefault("rank", {})[out] = 60 + out
+                for m in rng.sample(sp["mem"][0], min(len(sp["mem"][0]), rng.randint(1, 2))):
+                    sp["req"].setdefault(m, []).append(out)
         c17_flat_case(sp, res, batch, "rand" if i % 3 else "rand-nested", rng)
         if len(batch.items) > 20000:
             batch.flush()
@@ -1331,6 +1358,24 @@ def run_C19(tier, seed, res, drv, replay=None):
     ]
     for prog in corpus:
         c19_case(prog, 8, 3, res, batch, "corpus")
+    # a sequence that is built, EDITED (a chain edge removed, a requirement added to a middle job, a job of it
+    # required by an outsider), then extended: append() chains the new jobs only
+    for i in range(300 if tier == "quick" else 6000):
+        n0 = rng.randint(2, 4)
+        prog = [("newJob", k, N, None) for k in range(7)] + [("newSeq", 0, [J(k) for k in range(n0)], N, None)]
+        for _ in range(rng.randint(1, 3)):
+            kind = rng.choice(["cut", "cut", "extra", "outsider"])
+            if kind == "cut":
+                k = rng.randint(1, n0 - 1)
+                prog.append(("requires", k, [J(k - 1)], True))
+            elif kind == "extra":
+                prog.append(("requires", rng.randint(0, n0 - 1), [J(6)], False))
+            else:
+                prog.append(("requires", 6, [J(rng.randint(0, n0 - 1))], False))
+        prog.append(("append", 0, [J(k) for k in range(n0, rng.randint(n0 + 1, 6))]))
+        if rng.random() < 0.5:
+            prog.append(("append", 0, [J(5)]))
+        c19_case(prog, 8, 3, res, batch, "seq-edit-append")
     for i in range(3000 if tier == "quick" else 80000):
         prog, nj, nq = gen_prog(rng, maxlen=10 if i % 4 else 4)
         c19_case(prog, nj, nq, res, batch, "rand")
